@@ -343,6 +343,9 @@ func parseLinkDestination(block text.Reader) ([]byte, bool) {
 			} else if c == '>' {
 				block.Advance(i + 1)
 				return line[1:i], true
+			} else if c == '<' {
+				// an unescaped '<' can not be part of a <...> destination
+				return nil, false
 			}
 			i++
 		}
